@@ -1202,7 +1202,8 @@ func runCtl(c *Case, anns map[string]int) (err error) {
 	if err != nil {
 		return err
 	}
-	v := k8s.VerifCtlNew(cnf, "nginx", c.TLS, c.CertMgr, anns)
+	// every fourth case runs the controller with -watch-namespace (all the namespaces in use, not the controller's own)
+	v := k8s.VerifCtlNew(cnf, "nginx", c.TLS, c.CertMgr, anns, c.ID%4 == 1)
 	c.Ctl = nil
 	for _, ev := range c.Histories[0].Events {
 		s := ev.Spec
